@@ -510,9 +510,15 @@ class FixedWidthBinning(BinningBase):
             includes_right_edge = self.includes_right_edge
 
         if self._bin_count == 0:
-            self._times_min = int(np.floor((value - self._shift) / self.bin_width))
+            times_min = int(np.floor((value - self._shift) / self.bin_width))
             if not self._align:
-                self._shift = value - self._times_min * self.bin_width
+                self._shift = value - times_min * self.bin_width
+            # The division may be off by one bin because of rounding
+            if times_min * self._bin_width + self._shift > value:
+                times_min -= 1
+            elif (times_min + 1) * self._bin_width + self._shift <= value:
+                times_min += 1
+            self._times_min = times_min
             self._bin_count = 1
             self._bins = None
             self._numpy_bins = None
@@ -521,21 +527,40 @@ class FixedWidthBinning(BinningBase):
             add_left = add_right = 0
             if value < self.numpy_bins[0]:
                 add_left = int(np.ceil((self.numpy_bins[0] - value) / self.bin_width))
+                # The division may be off by one bin because of rounding
+                if self._edge(self._times_min - add_left) > value:
+                    add_left += 1
+                elif add_left > 1 and self._edge(self._times_min - add_left + 1) <= value:
+                    add_left -= 1
                 self._times_min -= add_left
                 self._bin_count += add_left
             elif value >= self.numpy_bins[-1]:
                 add_right = (value - self.numpy_bins[-1]) / self.bin_width
                 add_right = int(np.ceil(add_right))
-                self._bin_count += add_right
-                if self.last_edge == value and not includes_right_edge:
+                last_index = self._times_min + self._bin_count
+                # The division may be off by one bin because of rounding
+
+                def covered(count):
+                    new_last_edge = self._edge(last_index + count)
+                    return value < new_last_edge or (
+                        value == new_last_edge and includes_right_edge
+                    )
+
+                if not covered(add_right):
                     add_right += 1
-                    self._bin_count += 1
+                elif add_right > 0 and covered(add_right - 1):
+                    add_right -= 1
+                self._bin_count += add_right
             if add_left or add_right:
                 self._bins = None
                 self._numpy_bins = None
                 return add_left
             else:
                 return None
+
+    def _edge(self, index: int) -> float:
+        """Position of the edge with a given (integer) index on the grid."""
+        return index * self._bin_width + self._shift
 
     def _force_bin_existence(self, values, *, includes_right_edge=None):
         if np.isscalar(values):
